@@ -162,7 +162,18 @@ func runSlices(r *report.Run, slices []*slice, f func(sl *slice, e *gen.Expr, or
 				par.ForW(int(sp.Total), func(w, i int) {
 					e := sp.At(int64(i))
 					guard.Enter(w, e.String())
-					rn, outs := f(sl, e, b+int64(i))
+					var rn int64
+					var outs []string
+					func() {
+						defer func() {
+							if p := recover(); p != nil {
+								// the library drove the harness into a state it cannot handle: report it rather than crash
+								r.Report(report.Violation{Sub: "harness", Kind: "exception", Witness: fmt.Sprint(p), Order: b + int64(i),
+									Detail: map[string]interface{}{"slice": sl.name, "source": e.String(), "panic": fmt.Sprint(p)}})
+							}
+						}()
+						rn, outs = f(sl, e, b+int64(i))
+					}()
 					guard.Leave(w)
 					atomic.AddInt64(&runs, rn)
 					if len(outs) > 0 {
